@@ -72,10 +72,12 @@ func (its *MongoCollections) GetOperations(
 	from, to uint64,
 ) (model.OpList, []uint64, errors.OrdaError) {
 	f := schema.GetFilter().
-		AddFilterEQ(schema.OperationDocFields.DUID, duid).
-		AddFilterGTE(schema.OperationDocFields.Sseq, from)
+		AddFilterEQ(schema.OperationDocFields.DUID, duid)
 	if to != constants.InfinitySseq {
-		f.AddFilterLTE(schema.OperationDocFields.Sseq, to)
+		// one range condition: the result of AddFilterLTE used to be thrown away, so 'to' was ignored
+		f = append(f, bson.E{Key: schema.OperationDocFields.Sseq, Value: bson.D{{Key: "$gte", Value: from}, {Key: "$lte", Value: to}}})
+	} else {
+		f = f.AddFilterGTE(schema.OperationDocFields.Sseq, from)
 	}
 	opt := options.Find()
 
